@@ -465,7 +465,36 @@ func checkReverse(c *core.Ctx, t *fnTable) {
 		}
 		return true
 	})
-	c.Decide(bad == "", "REV", key, d.Function.Pos(), 1, "rune slice handled by rune index only", bad)
+	// the unit that is reversed is the character: element writes go to a []rune (or the body decodes with unicode/utf8)
+	runeBased := false
+	ast.Inspect(d.Function.Body, func(n ast.Node) bool {
+		switch x := n.(type) {
+		case *ast.CallExpr:
+			f := core.ExprStr(x.Fun)
+			if f == "[]rune" || strings.HasPrefix(f, "utf8.") {
+				runeBased = true
+			}
+		case *ast.AssignStmt:
+			for _, l := range x.Lhs {
+				ix, ok := l.(*ast.IndexExpr)
+				if !ok {
+					continue
+				}
+				if xt, ok := info.Types[ix.X]; ok {
+					if sl, ok := xt.Type.Underlying().(*types.Slice); ok {
+						if eb, ok := sl.Elem().Underlying().(*types.Basic); ok && (eb.Kind() == types.Uint8 || eb.Kind() == types.Byte) && bad == "" {
+							bad = "the elements that are swapped are bytes (" + core.ExprStr(ix.X) + " is a []byte): a multi-byte character is reversed byte by byte and the result is not valid UTF-8"
+						}
+					}
+				}
+			}
+		}
+		return true
+	})
+	if bad == "" && !runeBased {
+		bad = "reverse does not decode its argument into characters ([]rune(…) or unicode/utf8): multi-byte characters are not kept intact"
+	}
+	c.Decide(bad == "", "REV", key, d.Function.Pos(), 1, "reverses runes, by rune index only", bad)
 }
 
 func checkPosition(c *core.Ctx, t *fnTable, ids map[string]int64) {
